@@ -137,7 +137,9 @@ def run(ctx):
                 report("%d slices counted unusable, the damaged files %s have %d slices in all" % (ca["unusable"], damaged_names, worst), replay); continue
             if damaged_names and ca["needed"] != 1:
                 report("files %s differ from the protected content but Verify reports no repair needed" % damaged_names, replay); continue
-            if worst <= len(c["exps"]) and px["res"] not in ("ok", "err:singular"):
+            # (the property quantifies over exponents "below a few thousand"; the thorough tier's exponent 65535 is outside it -
+            # gopar's coder has at most 65535 rows, numbered 0..65534 - and is judged against the model only)
+            if worst <= len(c["exps"]) and max(c["exps"]) < 4000 and px["res"] not in ("ok", "err:singular"):
                 report("Repair failed (%s) although the damaged files have %d slices and %d intact blocks lie beside the index (base %r, exponents %s)" %
                        (px["res"], worst, len(c["exps"]), c["base"], c["exps"]), replay); continue
             if px["res"] == "ok" and sorted(px["repaired"]) != sorted(P.DIR + "/" + n_ for n_ in damaged_names):
